@@ -274,21 +274,31 @@ def binding_demo(ctx, rows):
     """Corrupt one recorded field / drop one event of a real trace: the strict trace spec must reject it."""
     # first history that contains a successful SetMany followed later by a full hit
     starts = [i for i, x in enumerate(rows) if x["ev"] == "reset"] + [len(rows)]
+    tried = 0
     for a, b in zip(starts, starts[1:]):
         seg = rows[a:b]
-        si = next((i for i, x in enumerate(seg) if x["ev"] == "set" and x["res"] == "ok" and x["items"]), None)
+        si = gi = None
+        for i, x in enumerate(seg):
+            if x["ev"] != "set" or x["res"] != "ok" or not x["applied"]:
+                continue
+            k = x["applied"][0]
+            # a later lookup that was answered with k, k written by no other SetMany before it
+            j = next((j for j, y in enumerate(seg) if j > i and y["ev"] == "get" and any(f["k"] == k for f in y["found"])), None)
+            if j is None or any(z["ev"] == "set" and k in z["applied"] for n, z in enumerate(seg[:j]) if n != i):
+                continue
+            si, gi = i, j
+            break
         if si is None:
-            continue
-        gi = next((i for i, x in enumerate(seg) if i > si and x["ev"] == "get" and x["res"] == "ok" and x["found"]
-                   and len(x["found"]) == len(x["keys"])), None)
-        if gi is None:
             continue
         good = ctx.path("demo-good.ndjson")
         lib.write_ndjson(good, seg)
         r0 = ctx.tlc(SPEC_DIRS, "Trace_EntityCache", "Trace_EntityCache_strict.cfg", workers=1, env={"TRACE": good}, deadlock=False,
                      count=False, tag="binding-demo-original", timeout=300)
         if not r0.ok:
-            return None  # this history carries a (known) finding; try nothing else
+            tried += 1  # this history carries a (known) finding: take another one
+            if tried >= 6:
+                return None
+            continue
         # (1) raise the recorded ttl beyond the header lifetime
         c1 = json.loads(json.dumps(seg))
         c1[si]["items"][0]["ttl"] = c1[si]["items"][0]["ttl"] + 1000
